@@ -170,3 +170,61 @@ func VerifC02ScopeLevel() {
 	verifrt.Assert("c02.scope.nothing-delivered-again", n2 == n)
 	verifrt.Reach("c02.scope.end")
 }
+
+// VerifC02FirstUse: two goroutines make the first use of one gauge name on one scope at the
+// same time (both may miss the read-locked lookup); the second one updates after the first one
+// has finished, so its value is the last update.  After both are done the next pass must
+// deliver that value: a caller that lost the creation race still holds the registered gauge.
+// Plain and cached reporter, every schedule with at most 2 preemptions.
+func VerifC02FirstUse() {
+	rec := &lockedReporter{}
+	crec := &vCachedReporter{}
+	cached := verifrt.Choose("cached", 2) == 1
+	opts := ScopeOptions{OmitCardinalityMetrics: true, registryShardCount: 1}
+	if cached {
+		opts.CachedReporter = crec
+	} else {
+		opts.Reporter = rec
+	}
+	root := newRootScope(opts, 0)
+	v1, v2 := verifrt.Float64("v"), verifrt.Float64("v")
+	var firstDone, wg sync.WaitGroup
+	firstDone.Add(1)
+	verifrt.Explore(2)
+	wg.Add(2)
+	go func() {
+		defer wg.Done()
+		g := root.Gauge("g")
+		g.Update(v1)
+		firstDone.Done()
+	}()
+	go func() {
+		defer wg.Done()
+		g := root.Gauge("g")
+		firstDone.Wait()
+		g.Update(v2)
+	}()
+	wg.Wait()
+	verifrt.StopExplore()
+	root.reportRegistry()
+	var bits uint64
+	n := 0
+	if cached {
+		for _, c := range crec.calls {
+			if c.kind == "gauge" {
+				bits = fbits(c.f)
+				n++
+			}
+		}
+		verifrt.Assert("c02.first-use.one-allocation-per-name", len(crec.allocs) == 1)
+	} else {
+		for _, c := range rec.calls {
+			if c.kind == "gauge" && c.name == "g" {
+				bits = fbits(c.f)
+				n++
+			}
+		}
+	}
+	verifrt.Assert("c02.first-use.reporter-holds-the-latest-update", verifrt.And(n >= 1, bits == fbits(v2)))
+	verifrt.Reach("c02.first-use.end")
+}
